@@ -42,7 +42,11 @@ def random_history(rng, obj, nops, target_bits):
             n += m
         elif r < 0.65:
             k_ = rng.randint(0, 31)
-            jobs.append(dict(op="bl", obj=obj, call="AddBits", a=[rng.randint(0, 2 ** 31 - 1), k_], full=False, hist=obj))
+            v_ = rng.randint(0, 2 ** 31 - 1)
+            if rng.random() < 0.15:        # field widths up to the 255 the byte-typed count admits, negative values (sign extension)
+                k_ = rng.choice([32, 33, 40, 63, 64, 65, 66, 100, 128, 200, 255])
+                v_ = rng.choice([0, 1, 2 ** 31 - 1, -1, -5, 12345, -(2 ** 31) + 1])
+            jobs.append(dict(op="bl", obj=obj, call="AddBits", a=[v_, k_], full=False, hist=obj))
             n += k_
         elif r < 0.75:
             jobs.append(dict(op="bl", obj=obj, call="AddByte", a=[rng.randint(0, 255)], full=False, hist=obj))
